@@ -34,8 +34,7 @@ def nbr_source(expr_poly_atom, defs):
     return None
 
 
-def rule_pair(ctx, tu):
-    R = "C02.PAIR"
+def rule_pair(ctx, tu, R="C02.PAIR"):
     for q in PAIR_FUNCS:
         f = tu.fn(q)
         defs = upd.local_defs(f)
@@ -66,6 +65,13 @@ def rule_pair(ctx, tu):
         if len(dst.t) == 1 and list(dst.t.values())[0] == 1:
             atom = list(dst.t)[0][0][0]
             ns = nbr_source(atom, defs)
+            if ns is None:
+                # the table load written in place (or a hoisted index local inlined by the front end)
+                for d_ in f.param_names():
+                    if atom == "mesh_neighbors[%r]" % (src * Poly.const(6) + Poly.sym(d_)):
+                        ns = ("mesh_neighbors", [src * Poly.const(6) + Poly.sym(d_)])
+                    elif atom == "mesh_neighbor_index[%r][%r]" % (src, Poly.sym(d_)):
+                        ns = ("mesh_neighbor_index", [src, Poly.sym(d_)])
             if ns:
                 tab, idxs = ns
                 if tab == "mesh_neighbors":
@@ -253,6 +259,69 @@ def rule_antisym(ctx, tu):
     ctx.floor(R, 6)
 
 
+def rule_nbr_table(ctx, tu):
+    """C02.NBR-TABLE -- what leaves a cell through face n enters the cell behind that face and comes back through the opposed
+    face: this needs the grid's neighbour table to be exactly GetNeighborIndex(coordinates of i, n) for every (i, n), and the
+    graph's neighbour lists to hold every edge from both of its ends.  (GetNeighborIndex itself is C15's.)"""
+    R = "C02.NBR-TABLE"
+    S = Poly.sym
+    f = tu.fn("SimulationAlgorithm3DBase::BuildMeshNeighbors")
+    recs = []
+
+    def on_atom(node, facts):
+        for x in walk(node):
+            for st in cxa.stores_of_node(x):
+                if st.base and st.base[1] == "mesh_neighbors" and subscript(st.target) is not None:
+                    recs.append((st, frozenset(facts)))
+    cxa.canon_facts(f.body, on_atom=on_atom)
+    ctx.need(recs, R, "BuildMeshNeighbors: no element store to mesh_neighbors")
+    loops = {cxa.for_parts(n)[0]: n for n in cxa.loops_in(f.body)} if False else None
+    for st, facts in recs:
+        idx = cxa.poly(subscript(st.target)[1])
+        vs = sorted(idx.syms())
+        rhs = strip(cxa.follow_local(st.rhs, f.body), casts=True) if st.rhs is not None else None
+        cp = call_parts(rhs) if rhs is not None else None
+        okk = st.op == "=" and cp is not None and cp[0] == "GetNeighborIndex" and len(cp[2]) == 4
+        why = "the stored value is `%s`, not GetNeighborIndex(x, y, z, n)" % (text(st.rhs)[:60] if st.rhs else st.op)
+        if okk:
+            n_ = cxa.canon(cp[2][3])
+            cell = [v for v in vs if v != n_]
+            okk = len(cell) == 1 and idx == S(cell[0]) * Poly.const(6) + S(n_)
+            why = "the table index is %r, not cell*6 + direction" % (idx,)
+            if okk:
+                i_ = cell[0]
+                got = [cxa.canon_inl(a, f.body).replace(" ", "") for a in cp[2][:3]]
+                want = [("(%s%%w)" % i_,), ("((%s%%(w*h))/w)" % i_, "((%s/w)%%h)" % i_), ("(%s/(w*h))" % i_, "((%s/w)/h)" % i_)]
+                okk = all(g in w_ for g, w_ in zip(got, want))
+                why = "the coordinates handed to GetNeighborIndex are %s, not (i %% w, i %% (w*h) / w, i / (w*h))" % got
+        conds = sorted(t for t, p in facts if not any(t.startswith(v + " < ") or t.startswith("0 <= " + v) for v in vs))
+        extra = [t for t, p in facts if "mesh_neighbors" in t or " == " in t or "%" in t]
+        if okk and extra:
+            okk = False
+            why = "the entry is written only under `%s`" % extra[0]
+        ctx.check(okk, R, st.node, f.qual, text(st.node)[:90], "mesh_neighbors[i*6+n] = GetNeighborIndex(coordinates of i, n)", why +
+                  ": the neighbour relation is no longer symmetric, what leaves a cell is not what its neighbour receives")
+    # no other function modifies the table
+    for g in tu.all_fns():
+        if g.body is None or g.qual == f.qual:
+            continue
+        for st in cxa.all_stores(g.body):
+            if st.base and st.base[0] == "field" and st.base[1] == "mesh_neighbors" and subscript(st.target) is not None:
+                ctx.violation(R, st.node, g.qual, text(st.node)[:80], "the neighbour table is modified outside BuildMeshNeighbors")
+    # graph: every edge registered from both end points
+    g = tu.fn("SimulationAlgorithmGraphBase::SetNeighbors")
+    pairs = set()
+    for st in cxa.all_stores(g.body):
+        if st.base and st.base[1] == "mesh_neighbor_index" and st.how == "method" and st.op == "push_back":
+            sub = subscript(st.target)
+            if sub is not None:
+                pairs.add((cxa.canon(sub[1]), cxa.canon(st.rhs)))
+    ctx.check(len(pairs) == 2 and {(b, a) for a, b in pairs} == pairs, R, g.node, g.qual,
+              "mesh_neighbor_index[a].push_back(b) for (a, b) in %s" % sorted(pairs), "each edge from both end points",
+              "edges are not registered symmetrically: %s" % sorted(pairs))
+    ctx.floor(R, 2)
+
+
 def run(ctx):
     tu = ctx.cx
     eff = cxa.Effects(tu)
@@ -261,5 +330,8 @@ def run(ctx):
     rule_writers(ctx, tu, eff)
     rule_forms(ctx, tu)
     rule_antisym(ctx, tu)
+    rule_nbr_table(ctx, tu)
+    from . import c16
+    c16.rule_uncg(ctx, ctx.py, "C02.UNCG")
     ctx.assume("floating-point exactness of the Euler sums is not decided; opposed_direction is an involution pairing "
                "opposite moves (C15.DISP); the stoichiometric matrix layout is C01.LAYOUT / C19.MATRIX")
